@@ -60,21 +60,24 @@ def addPos (pos : Nat → V3 α) (index : Nat) : Nat → OT α → Box3 α → O
 /-- `std::max(a, b)` -/
 def fmax (a b : α) : α := if a < b then b else a
 
+/-- one step of the accumulation in `set_variable`: the first existing child initialises the
+variable, the others are accumulated with `max` -/
+def accStep (kids : Fin 8 → OT α) (r : Fin 8 → α) (a : Option α) (i : Fin 8) : Option α :=
+  match kids i with
+  | .empty => a
+  | _ => match a with
+    | none => some (r i)
+    | some v => some (fmax v (r i))
+
+def accGet (acc : Option α) : α := match acc with | some v => v | none => 0.0
+
 /-- `set_variable(variables, max)`: returns the tree with the variables filled in -/
 def setVar (h : Nat → α) : OT α → OT α × α
   | .empty => (.empty, 0.0)
   | .leaf i => (.leaf i, h i)
   | .node b _ kids =>
-    let r := fun (i : Fin 8) => setVar h (kids i)
-    -- the first existing child initialises the variable, the others are accumulated with `max`
-    let acc : Option α := (List.finRange 8).foldl (fun (a : Option α) i =>
-      match kids i with
-      | .empty => a
-      | _ => match a with
-        | none => some (r i).2
-        | some v => some (fmax v (r i).2)) none
-    let v := match acc with | some v => v | none => 0.0
-    (.node b v (fun i => (r i).1), v)
+    let v := accGet ((List.finRange 8).foldl (accStep kids (fun i => (setVar h (kids i)).2)) none)
+    (.node b v (fun i => (setVar h (kids i)).1), v)
 
 /-- `(a - b).norm()` -/
 def dist (a b : V3 α) : α :=
